@@ -714,7 +714,7 @@ func (vc *VC) constVal(c *ssa.Const) Val {
 		case u.Info()&types.IsInteger != 0:
 			return Val{T: smtInt(constant.ToInt(c.Value).ExactString()), Ty: t}
 		case u.Info()&types.IsFloat != 0:
-			return Val{T: vc.floatConst(c.Value.ExactString()), Ty: t}
+			return Val{T: vc.floatLit(c.Value), Ty: t}
 		case u.Info()&types.IsString != 0:
 			return Val{T: vc.strConst(constant.StringVal(c.Value)), Ty: t}
 		}
@@ -905,11 +905,15 @@ func (fr *Frame) step(st *State, instr ssa.Instruction) bool {
 		fr.runDefers(st, false)
 	case *ssa.Go:
 		vc.unsupported("go statement")
-	case *ssa.Send, *ssa.Select:
-		vc.unsupported("channel operation")
-		if v, ok := instr.(ssa.Value); ok {
-			fr.havocVal(st, v)
+	case *ssa.Select:
+		// a blocking select waits for one of its cases: nondeterministic index in range
+		vc.note("select is modelled as a nondeterministic wait that picks one of its cases")
+		fr.havocVal(st, x)
+		if tv := fr.vals[x]; len(tv.Tuple) > 0 && x.Blocking {
+			vc.assume(fmt.Sprintf("(and (<= 0 %s) (< %s %d))", tv.Tuple[0].T, tv.Tuple[0].T, len(x.States)))
 		}
+	case *ssa.Send:
+		vc.unsupported("channel send")
 		vc.havocAll(st, "channel")
 	case *ssa.SliceToArrayPointer:
 		vc.unsupported("SliceToArrayPointer")
@@ -1788,4 +1792,16 @@ func isConstRune(v ssa.Value) bool {
 	}
 	n, ok := constant.Int64Val(constant.ToInt(c.Value))
 	return ok && n >= 0 && n < 128
+}
+
+// floatLit: integral float constants below 2^53 are i2f(n) (exactly
+// representable), so that float64(intConst) in code and contracts agree.
+func (vc *VC) floatLit(v constant.Value) Term {
+	if iv := constant.ToInt(v); iv.Kind() == constant.Int {
+		if n, ok := constant.Int64Val(iv); ok && n > -(1<<53) && n < (1<<53) {
+			vc.decl("fun:i2f", "(declare-fun i2f (Int) F64)")
+			return "(i2f " + smtInt(fmt.Sprint(n)) + ")"
+		}
+	}
+	return vc.floatConst(v.ExactString())
 }
